@@ -624,3 +624,103 @@ Theorem journaled_writes_are_contained exts ws d d' :
   crash_from d (map (fun ic => WCell (fst ic) (snd ic)) ws) d' ->
   s0 d' = s0 d /\ s1 d' = s1 d /\ wipe exts (cells d') = wipe exts (cells d).
 Proof. apply crash_from_cells. Qed.
+
+(* ---------------- the run-time scrub of a failed batch (C09) ---------------- *)
+(* A batch fails while its journal intent ACTIVE(exts) is durable in slot c (any failing write
+   or fsync of the record writes).  Some of its cell writes may still be un-synced (`ws`, all
+   inside the journaled extents); under the fail-stop model they stay pending and the next
+   successful fsync makes them durable.  The scrub (cleanup_failed_allocations -> retire_extents)
+   journals ACTIVE(exts) again -- next generation, other slot -- and then does exactly what the
+   replay does: markers, fsync, clear, fsync. *)
+Definition cellws (ws : list (nat * cell)) : list wr := map (fun ic => WCell (fst ic) (snd ic)) ws.
+
+Definition scrub_stage0 (d : disk) (ws : list (nat * cell)) : dev := mkdev d (cellws ws).
+Definition scrub_stage1 (d : disk) (c : bool) (g : N) (exts : list nat) (ws : list (nat * cell)) : dev :=
+  mkdev d (cellws ws ++ [WSlot (negb c) (SValid (g + 1) (JActive exts))]).
+Definition scrub_synced (d : disk) (c : bool) (g : N) (exts : list nat) (ws : list (nat * cell)) : disk :=
+  durable (fsync (scrub_stage1 d c g exts ws)).
+
+Lemma crash_from_app a : forall b d d',
+  crash_from d (a ++ b) d' -> exists dm, crash_from d a dm /\ crash_from dm b d'.
+Proof.
+  induction a as [|w t IH]; intros b d d' H; simpl in H.
+  - exists d. split; [constructor | exact H].
+  - inversion H as [|? ? ? d1 ? SV CF]; subst.
+    destruct (IH _ _ _ CF) as (dm & A & B). exists dm. split; [econstructor; eauto | exact B].
+Qed.
+
+Theorem scrub_restartable d c g exts ws :
+  replay_start d c g exts -> (forall i cl, In (i, cl) ws -> In i exts) ->
+  let seen := wipe exts (cells d) in
+  (* at the failure and while the new intent is in flight: every crash image recovers the pre-batch cells *)
+  (forall d', crash_image (scrub_stage0 d ws) d' -> recover d' = Some seen) /\
+  (forall d', crash_image (scrub_stage1 d c g exts ws) d' -> recover d' = Some seen) /\
+  (* once the new intent is durable the situation is the one recovery's replay starts from,
+     with the same recovered cells: replay_restartable covers the markers, the clear and the end *)
+  replay_start (scrub_synced d c g exts ws) (negb c) (g + 1) exts /\
+  wipe exts (cells (scrub_synced d c g exts ws)) = seen.
+Proof.
+  intros (SL & OL & JF) HIN seen.
+  assert (ST0 : forall dm, crash_from d (cellws ws) dm ->
+            slot_of dm c = SValid g (JActive exts) /\ older_or_invalid (slot_of dm (negb c)) g /\
+            wipe exts (cells dm) = seen).
+  { intros dm CF. destruct (crash_from_cells exts _ _ _ HIN CF) as (A & B & C).
+    unfold slot_of in *. destruct c; simpl in *; rewrite ?A, ?B; auto. }
+  split; [|split; [|split]].
+  - intros d' CI. unfold crash_image, scrub_stage0 in CI. simpl in CI.
+    destruct (ST0 _ CI) as (S1 & O1 & W1). rewrite <- W1.
+    eapply recover_active; [eapply select_cur; eauto | rewrite W1; exact JF].
+  - intros d' CI. unfold crash_image, scrub_stage1 in CI. simpl in CI.
+    destruct (crash_from_app _ _ _ _ CI) as (dm & CA & CB).
+    destruct (ST0 _ CA) as (S1 & O1 & W1).
+    destruct (crash_from_one _ _ _ CB) as [->|[->| ->]].
+    + rewrite <- W1. eapply recover_active; [eapply select_cur; eauto | rewrite W1; exact JF].
+    + rewrite <- W1. rewrite <- (cells_apply_slot dm (negb c) (SValid (g + 1) (JActive exts))).
+      eapply recover_active.
+      * apply (select_cur _ (negb c)); [apply slot_of_apply_slot|].
+        rewrite Bool.negb_involutive. rewrite <- (Bool.negb_involutive c) at 2.
+        rewrite slot_of_apply_slot_other, Bool.negb_involutive. rewrite S1. simpl. lia.
+      * rewrite cells_apply_slot, W1. exact JF.
+    + simpl torn. rewrite <- W1. rewrite <- (cells_apply_slot dm (negb c) SJunk).
+      eapply recover_active.
+      * apply (select_cur _ c).
+        -- rewrite <- (Bool.negb_involutive c) at 2. rewrite slot_of_apply_slot_other, Bool.negb_involutive. exact S1.
+        -- rewrite slot_of_apply_slot. simpl. auto.
+      * rewrite cells_apply_slot, W1. exact JF.
+  - unfold scrub_synced, scrub_stage1, fsync. cbn [durable pending]. rewrite fold_left_app. cbn [fold_left].
+    destruct (fold_cell_writes ws d) as (A & B & C). fold (cellws ws) in A, B, C.
+    set (D1 := fold_left apply_wr (cellws ws) d) in *.
+    assert (W1 : wipe exts (cells D1) = seen) by (rewrite C; apply wipe_absorbs_writes; exact HIN).
+    assert (S1 : slot_of D1 c = SValid g (JActive exts)) by (unfold slot_of in *; destruct c; simpl in *; rewrite ?A, ?B; auto).
+    split; [|split].
+    + apply slot_of_apply_slot.
+    + rewrite Bool.negb_involutive.
+      replace (slot_of (apply_wr D1 (WSlot (negb c) (SValid (g + 1) (JActive exts)))) c) with (slot_of D1 c)
+        by (destruct c; reflexivity).
+      rewrite S1. simpl. lia.
+    + rewrite cells_apply_slot, W1. exact JF.
+  - unfold scrub_synced, scrub_stage1, fsync. cbn [durable pending]. rewrite fold_left_app. cbn [fold_left].
+    destruct (fold_cell_writes ws d) as (A & B & C). fold (cellws ws) in C.
+    rewrite cells_apply_slot, C. apply wipe_absorbs_writes. exact HIN.
+Qed.
+
+(* put together with replay_restartable: from the failure to the end of the scrub, every crash
+   image -- and the device as it stands at each fsync -- recovers the cells the batch found, so
+   the contents are those before the batch (txn_ok: wiping the journaled extents changes no key) *)
+Corollary scrub_preserves_contents d c g exts ws :
+  replay_start d c g exts -> (forall i cl, In (i, cl) ws -> In i exts) ->
+  let seen := wipe exts (cells d) in
+  let d1 := scrub_synced d c g exts ws in
+  (forall d', crash_image (scrub_stage0 d ws) d' -> recover d' = Some seen) /\
+  (forall d', crash_image (scrub_stage1 d c g exts ws) d' -> recover d' = Some seen) /\
+  recover d1 = Some seen /\
+  (forall d', crash_image (replay_stage1 d1 exts) d' -> recover d' = Some seen) /\
+  (forall d', crash_image (replay_stage2 d1 (negb c) (g + 1) exts) d' -> recover d' = Some seen) /\
+  recover (replay_done d1 (negb c) (g + 1) exts) = Some seen.
+Proof.
+  intros RS HIN seen d1.
+  destruct (scrub_restartable d c g exts ws RS HIN) as (A & B & RS1 & W1).
+  destruct (replay_restartable d1 (negb c) (g + 1) exts RS1) as (R0 & R1 & R2 & R3 & _).
+  fold d1 in W1. rewrite W1 in R0, R1, R2, R3.
+  repeat split; assumption.
+Qed.
